@@ -220,7 +220,7 @@ def check(run):
         for n in ast.walk(fn):
             if isinstance(n, ast.Assign) and isinstance(n.targets[0], ast.Subscript) and norm(n.targets[0].value) == idxname:
                 if norm(n.value) != 'obj':
-                    raise AnalysisError('C19: %s stores %s' % (builder, norm(n.value)))
+                    continue        # something other than the object itself is stored: not a key of the registry
                 keyexprs.append(n.targets[0].slice)
                 f = facts(guards_of(fn, n) or [])
                 filt.append(('type(obj)', 'is', kindname) in f or ('type(obj)', '==', kindname) in f)
@@ -245,17 +245,27 @@ def check(run):
             run.fail('C19-R3', K + builder + '|invoked', PYX, fn.lineno,
                      '%s is not invoked after the last %s definition (line %d)' % (builder, kindname, last_def))
         index = {}
+        uninterpreted = set()
         for r in sorted(recs.values(), key=lambda r: r.var):     # dir(module) is sorted by name
             if kindname == 'Isotope' and 'element' not in r:
                 continue
             for ke in keyexprs:
-                k = _key_eval(ke, r)
+                try:
+                    k = _key_eval(ke, r)
+                except AnalysisError as e_:
+                    uninterpreted.add(norm(ke)[:40] + ': ' + str(e_)[:60])
+                    continue
                 if k in index and index[k] is not r:
                     run.subject('C19-R3')
                     run.fail('C19-R3', K + builder + '|collision|%s' % (k,), PYX, r.line,
                              "index key '%s' (%s) of %s collides with %s: one of them cannot be looked up by it"
                              % (k, norm(ke), r.var, index[k].var))
                 index[k] = r
+        if uninterpreted:
+            # a key expression outside the interpreted forms: which keys exist is not known, so the presence checks are undecided
+            run.subject('C19-R3')
+            run.undecided('C19-R3', builder + ' keys', 'index key not interpreted: ' + sorted(uninterpreted)[0])
+            continue
         for r in recs.values():
             if kindname == 'Isotope' and 'element' not in r:
                 continue
